@@ -36,6 +36,9 @@ type h1Run struct {
 	ErrStr     string
 	CliErr     string
 	TrigDurNs  int64
+	TrigDesc   string
+	TrigOpts   api.Options
+	HaveTrig   bool
 	Gathered   []metricSeries
 	GatherErr  string
 }
@@ -201,6 +204,7 @@ func h1OneRun(env *Env, c *H1Cfg, st *h1State, runIdx int) {
 		}()
 		if trig != nil {
 			hr.TrigDurNs = int64(trig.Duration)
+			hr.TrigDesc, hr.TrigOpts, hr.HaveTrig = trig.Description, trig.Options, true
 			if c.Mode == "file" {
 				opts.Scenario = g.Scenario
 				opts.MaxDuration = trig.Options.MaxDuration
@@ -232,6 +236,9 @@ func h1OneRun(env *Env, c *H1Cfg, st *h1State, runIdx int) {
 	g.DoReturned = true
 	g.DoReturnedNs, g.DoReturnedSeq = env.Sim.Now(), env.Sim.Step()
 	env.Log("do-return", int64(runIdx), 0, "")
+	if len(c.ReadEnv) > 0 {
+		g.EnvAfter = envStillSet(c.ReadEnv)
+	}
 	if hr.Result != nil && g.DoPanic == "" {
 		func() {
 			defer func() {
